@@ -282,9 +282,9 @@ PROPS = {
                       "start with an XML declaration.",
         "level_note": "Trusted: codec behaviour (uninterpreted bytes.decode with BOM axioms, "
                       "conformance-tested); BOM table read from the live module on this (little-endian) "
-                      "host; regex matches as uninterpreted functions of the searched text. Assumed "
-                      "contract: read_xml_encoding (bytes regex body).",
-        "units": [K("utils.py::read_bytes"), K("utils.py::detect_encoding"),
+                      "host; regex matches as uninterpreted functions of the searched text (plus structural facts "
+                      "read off the pattern: mandatory groups, ASCII-only groups).",
+        "units": [K("utils.py::read_bytes"), K("utils.py::detect_encoding"), K("utils.py::read_xml_encoding"),
                   K("template.py::BaseTemplate.write@str"), K("template.py::BaseTemplate.write@bytes")],
         "not_decided": ["RE_META fixes the attribute order http-equiv before content (finding D16)",
                         "template.write/read/parse plumbing (pending)"],
